@@ -204,6 +204,10 @@ func runMonitorCheck(rc *RunCtx, rep *Report, scs []*Scenario,
 			if sc.MaxStates == 0 {
 				sc.MaxStates = 400000
 			}
+			if os.Getenv("VERIF_NO_MAP_ORDER") == "" {
+				// every step is also tried with another iteration order of each of its maps (one deviation at a time)
+				sc.MapOrderDeviations = true
+			}
 			x := &Explorer{RC: rc, Rep: rep, Sc: sc}
 			cands := newCandidates(false)
 			views := map[uint64]*StoreView{}
